@@ -440,10 +440,14 @@ class World:
         qual = f"{mod}.{k}.{fn.name}"
         if (k, fn.name) in self.no_inline:
             raise Unsupported(f"{qual} has no contract and is not inlinable")
+        decos = [d.id if isinstance(d, ast.Name) else ast.unparse(d) for d in fn.decorator_list]
+        if any(d not in ("staticmethod", "classmethod", "property") for d in decos):
+            raise Unsupported(f"{qual} carries decorators {decos}: call convention not modelled")
+        recv = [] if "staticmethod" in decos else ([IP.ClassRef(o.cls)] if "classmethod" in decos else [o])
         I.inline_depth += 1
         try:
             if I.inline_depth > 6: raise Unsupported("inline depth")
-            return I.exec_function(fn, [o] + list(args), kwargs, loop_specs=self.loop_specs.get(qual), qualname=qual)
+            return I.exec_function(fn, recv + list(args), kwargs, loop_specs=self.loop_specs.get(qual), qualname=qual)
         finally:
             I.inline_depth -= 1
 
